@@ -263,6 +263,13 @@ def make_oracle(name):
 
         def half_pack():
             kwargs = {fname: to_py(kind, model[fname], net) for fname, kind in spec}
+            # keyword arguments have no order: the fields are handed over in a rotated / reversed order
+            names = list(kwargs)
+            k = len(ref) % max(1, len(names))
+            names = names[k:] + names[:k]
+            if len(ref) % 3 == 0:
+                names.reverse()
+            kwargs = {fname: kwargs[fname] for fname in names}
             packed = net.message.pack(name, **kwargs)
             state["packed"] = packed
             if packed != ref:
